@@ -166,7 +166,7 @@ class HistogramBase(abc.ABC):
                         f"Frequencies of type {frequencies.dtype} not understood"
                     )
             dtype = frequencies.dtype
-            self.frequencies = frequencies
+            self._assign_frequencies(frequencies)
         self._dtype, _ = self._eval_dtype(dtype)  # type: ignore
 
         # Errors
@@ -444,6 +444,14 @@ class HistogramBase(abc.ABC):
 
     @frequencies.setter
     def frequencies(self, values: ArrayLike) -> None:
+        self._assign_frequencies(values)
+        if hasattr(self, "_stats"):
+            # They described other contents (the operations of the library that maintain
+            # them assign through `_assign_frequencies`)
+            self._stats = INVALID_STATISTICS
+
+    def _assign_frequencies(self, values: ArrayLike) -> None:
+        """Checked assignment of the bin contents (the statistics are the caller's business)."""
         # A copy: the histogram owns its data (they may be the array of another one)
         frequencies = np.array(values)
         if frequencies.shape != self.shape:
@@ -1070,7 +1078,7 @@ class HistogramBase(abc.ABC):
                 # print("Has same!!!!!!!!!!")
                 self._coerce_dtype(other.dtype)
                 self._widen_for_sum(other, with_missed=True)
-                self.frequencies = self.frequencies + other.frequencies
+                self._assign_frequencies(self.frequencies + other.frequencies)
                 self.errors2 = self.errors2 + other.errors2
                 # Not in place: an unknown (NaN) missed weight does not fit an integer array
                 self._missed = self._missed + other._missed
@@ -1094,7 +1102,7 @@ class HistogramBase(abc.ABC):
                     self._change_binning(new_bins, map1, axis=i)
                     other._change_binning(new_bins, map2, axis=i)
                 self._widen_for_sum(other, with_missed=False)
-                self.frequencies = self.frequencies + other.frequencies
+                self._assign_frequencies(self.frequencies + other.frequencies)
                 self.errors2 = self.errors2 + other.errors2
             else:
                 raise ValueError("Incompatible binning")
@@ -1103,7 +1111,7 @@ class HistogramBase(abc.ABC):
         elif config.free_arithmetics:
             array = np.asarray(other)
             self._coerce_dtype(array.dtype)
-            self.frequencies = self.frequencies + array
+            self._assign_frequencies(self.frequencies + array)
             self.errors2 = self.errors2 + abs(array)
             self._missed = self._missed * np.nan  # TODO: Any reasonable interpretation?
             self._stats = INVALID_STATISTICS
@@ -1164,7 +1172,7 @@ class HistogramBase(abc.ABC):
                     and errors2.max(initial=0) > np.iinfo(self.dtype).max
                 ):
                     self.set_dtype(errors2.dtype)
-                self.frequencies = frequencies.astype(self.dtype)
+                self._assign_frequencies(frequencies.astype(self.dtype))
                 self.errors2 = errors2.astype(self.dtype)
                 # Not in place: an unknown (NaN) missed weight does not fit an integer array
                 self._missed = self._missed - other._missed
@@ -1209,7 +1217,7 @@ class HistogramBase(abc.ABC):
             frequencies = self.frequencies * scalar
             # Not `scalar**2`: a numpy scalar would be squared in its own (possibly narrow) type
             self.errors2 = self.errors2 * scalar * scalar
-            self.frequencies = frequencies
+            self._assign_frequencies(frequencies)
             self._missed = self._missed * scalar
             if hasattr(self, "_stats"):
                 self._stats = self._stats * scalar
@@ -1221,7 +1229,7 @@ class HistogramBase(abc.ABC):
             frequencies = self.frequencies * wide
             # The squared errors first: they are what may be refused
             self.errors2 = self.errors2 * wide * wide
-            self.frequencies = frequencies
+            self._assign_frequencies(frequencies)
             if hasattr(self, "_stats"):
                 self._stats = INVALID_STATISTICS
             self._missed = self._missed * np.nan
@@ -1261,7 +1269,7 @@ class HistogramBase(abc.ABC):
                 raise ZeroDivisionError("Cannot divide a histogram by zero.")
             self._refuse_scaling_of_negative_contents()
             self._coerce_dtype(np.float64)
-            self.frequencies = self.frequencies / other
+            self._assign_frequencies(self.frequencies / other)
             # Not `other**2`: a numpy scalar would be squared in its own (possibly narrow) type
             self.errors2 = self.errors2 / other / other
             self._missed /= other
@@ -1272,7 +1280,7 @@ class HistogramBase(abc.ABC):
             array = np.asarray(other)
             frequencies = self.frequencies / array
             self.errors2 = self.errors2 / array / array  # (not `array**2`, see *=)
-            self.frequencies = frequencies
+            self._assign_frequencies(frequencies)
             if hasattr(self, "_stats"):
                 self._stats = INVALID_STATISTICS
             self._missed /= np.nan
